@@ -195,6 +195,31 @@ pub fn run(tier: &str, seed: u64) -> Report {
             }
         }
     }
+    // (1b) ALL lower-case ASCII strings of length 1..=3 (18 278 keys: every three-letter name a maintainer might think of reserving)
+    for len in 1..=3usize {
+        for mut idx in 0..26usize.pow(len as u32) {
+            let mut s = String::new();
+            for _ in 0..len {
+                s.push((b'a' + (idx % 26) as u8) as char);
+                idx /= 26;
+            }
+            cases.push(Case::Key { key: s.clone(), form: (cases.len() % 3) as u8, class: "all-lowercase<=3".into() });
+            if len == 3 && RESERVED.contains(&s.as_str()) {
+                continue;
+            }
+        }
+    }
+    // (1c) a dictionary of names from neighbouring specifications (JWT/JOSE/OIDC/PASETO footers/PASERK) and common usage
+    for name in [
+        "kid", "wpk", "typ", "alg", "cty", "crit", "jku", "jwk", "x5u", "x5c", "x5t", "zip", "enc", "epk", "apu", "apv", "nonce", "azp", "scope", "scp", "auth_time", "acr", "amr", "at_hash", "c_hash", "sid",
+        "name", "given_name", "family_name", "email", "email_verified", "roles", "role", "groups", "permissions", "tenant", "client_id", "cnf", "act", "may_act", "data", "id", "uid", "user", "user_id",
+        "key", "keys", "footer", "implicit", "assertion", "version", "purpose", "paseto", "token", "payload", "expires", "expiration", "not_before", "issued_at", "issuer", "subject", "audience", "jwt", "exp2",
+        "k4.lid", "k4.pid", "k4.sid", "local", "public", "v4", "seal", "wrap", "pw",
+    ] {
+        for form in 0..6u8 {
+            cases.push(Case::Key { key: name.to_string(), form, class: "dictionary".into() });
+        }
+    }
     // (2) decorated variants of the seven keys
     for rk in RESERVED {
         let up = rk.to_uppercase();
@@ -318,4 +343,4 @@ pub fn replay(case: &Value) -> Report {
     r
 }
 
-pub const RULE: &str = "CustomClaim::try_from: ALL strings of length 0..=4 over the 13 letters of the reserved keys plus 'E', space and NUL (69 905 keys) x the three constructor forms (&str, (&str,T), (String,T)); 23 decorated variants (case, whitespace, NUL, zero-width, homoglyphs, reversed, truncated, extended) of each of the seven keys x six forms/value types; 20 000 (thorough 2 000 000) random Unicode keys; oracle: fails with the reserved-key error iff the key is literally one of the seven, otherwise succeeds keeping key and value. Time constructors (ExpirationClaim, NotBeforeClaim, IssuedAtClaim x &str/String): 13 instants x UTC offsets -23:59..+23:59 (every 7th plus the extremes; thorough: all) x 0..9 fractional digits, 'Z' and '-00:00' forms must be accepted and kept verbatim (also read back through a built token); strings outside a deliberately broad recogniser of ISO 8601 date prefixes (optional sign + >= 4 digits) must be refused; lenient renderings and possibly-date strings are recorded without verdict. distinct_nontrivial = distinct (class, form/constructor, key or text shape) tuples";
+pub const RULE: &str = "CustomClaim::try_from: ALL strings of length 0..=4 over the 13 letters of the reserved keys plus 'E', space and NUL (69 905 keys) x the three constructor forms (&str, (&str,T), (String,T)); ALL 18 278 lower-case ASCII strings of length 1..3; a dictionary of 75 names from neighbouring specifications (kid, wpk, typ, nonce, scope, email ...) x six forms; 23 decorated variants (case, whitespace, NUL, zero-width, homoglyphs, reversed, truncated, extended) of each of the seven keys x six forms/value types; 20 000 (thorough 2 000 000) random Unicode keys; oracle: fails with the reserved-key error iff the key is literally one of the seven, otherwise succeeds keeping key and value. Time constructors (ExpirationClaim, NotBeforeClaim, IssuedAtClaim x &str/String): 13 instants x UTC offsets -23:59..+23:59 (every 7th plus the extremes; thorough: all) x 0..9 fractional digits, 'Z' and '-00:00' forms must be accepted and kept verbatim (also read back through a built token); strings outside a deliberately broad recogniser of ISO 8601 date prefixes (optional sign + >= 4 digits) must be refused; lenient renderings and possibly-date strings are recorded without verdict. distinct_nontrivial = distinct (class, form/constructor, key or text shape) tuples";
